@@ -208,12 +208,14 @@ impl Engine for C17 {
         };
         if mode == "filter" {
             // many short lines: what a skipped iteration leaves behind must not add up
-            let n = r.pick(&[40usize, 120, 400]) + r.usize(0, 30);
+            let n = r.pick(&[150usize, 400, 1500]) + r.usize(0, 30);
             let lines: Vec<Value> = (0..n).map(|_| json!({"len": r.usize(0, 120), "kind": r.pick(&KINDS)})).collect();
             case["lines"] = json!(lines);
             case["final_newline"] = json!(r.chance(60));
             case["keep_every"] = json!(r.pick(&[1u64, 2, 3, 7, 50]));
-            case["frame_kib"] = json!(r.pick(&[128u64, 192, 256]));
+            // generous against the 8 KiB buffer of one call, tiny against what hundreds of skipped
+            // iterations would pile up if they did not give their memory back
+            case["frame_kib"] = json!(r.pick(&[512u64, 1024]));
         }
         let calls = if mode == "filter" { case["lines"].as_array().unwrap().len() + 2 } else { calls };
         let mut errors = vec![];
@@ -591,8 +593,8 @@ impl Engine for C17 {
          characters; with/without final newline) + delivery plan (bytes each read(0) may return: all, \
          one line per read, 1 byte, fixed k, random, aligned to end on/before/after each newline, 8 KiB-aligned) \
          + mode (script straight-line / loop / collect-into-array / first results unused / behind one or two \
-         user functions with unused results / filtering loop that skips most of 40-430 lines with `next` on a \
-         128-256 KiB frame arena, or direct sys::stdin::read_line) + optional injected read error (it may \
+         user functions with unused results / filtering loop that skips most of 150-1530 lines with `next` on a \
+         512-1024 KiB frame arena, or direct sys::stdin::read_line) + optional injected read error (it may \
          surface, or be retried inside read_line; either way no call may return a wrong line). Non-trivial = some read returned bytes past a newline, or the buffer had to grow \
          past 8 KiB, or a multi-byte character was split across reads. Distinct = hash of text shape, mode and \
          the (asked, returned) log of every read."
